@@ -265,6 +265,46 @@ let empty_branch_stream oc =
       emit_c09 oc ~stream:"c09-empty-branch" (mk ()) [ ("a", M.VBool a); ("b", M.VBool b); ("c", M.VBool c); ("x", G.vint 0) ])
       [ true; false ]) [ true; false ]) [ true; false ]) shapes
 
+(* a flag assigned a literal at the top, read by a bare condition in a loop body, reassigned later in the same body:
+   every iteration after the first sees the reassigned value (and so does whatever follows the loop) *)
+let flag_stream oc =
+  let lits = [ M.LBool false; M.LBool true; M.LNull; M.LInt (G.z_of_int 0); M.LInt (G.z_of_int 3); M.LStr []; M.LStr (bs "0"); M.LStr (bs "y") ] in
+  let lit l = M.ELit l in
+  let items = M.EArr [ lit_str "p"; lit_str "q"; lit_str "r" ] in
+  let shapes : (string * (M.expr -> M.expr -> M.node list)) list = [
+    "if", (fun l0 l1 -> [ M.NSet (bs "f", l0); M.NFor (None, bs "x", items, [ M.NIf ([ (var "f", [ text ", " ]) ], None); print (var "x"); M.NSet (bs "f", l1) ], None); text "|"; print (var "f") ]);
+    "if-else", (fun l0 l1 -> [ M.NSet (bs "f", l0); M.NFor (None, bs "x", items, [ M.NIf ([ (var "f", [ text "T" ]) ], Some [ text "F" ]); M.NSet (bs "f", l1) ], None) ]);
+    "elseif", (fun l0 l1 -> [ M.NSet (bs "f", l0); M.NFor (None, bs "x", items, [ M.NIf ([ (var "nope", [ text "N" ]); (var "f", [ text "T" ]) ], Some [ text "F" ]); M.NSet (bs "f", l1) ], None) ]);
+    "not", (fun l0 l1 -> [ M.NSet (bs "f", l0); M.NFor (None, bs "x", items, [ M.NIf ([ (M.EUn (M.UNot, var "f"), [ text "T" ]) ], Some [ text "F" ]); M.NSet (bs "f", l1) ], None) ]);
+    "ternary", (fun l0 l1 -> [ M.NSet (bs "f", l0); M.NFor (None, bs "x", items, [ print (M.ECond (var "f", lit_str "T", lit_str "F")); M.NSet (bs "f", l1) ], None) ]);
+    "set-in-branch", (fun l0 l1 -> [ M.NSet (bs "f", l0); M.NFor (None, bs "x", items,
+                        [ M.NIf ([ (var "f", [ text "T" ]) ], Some [ text "F" ]); M.NIf ([ (attr (var "loop") "first", [ M.NSet (bs "f", l1) ]) ], None) ], None); text "|"; print (var "f") ]);
+    "inner-loop", (fun l0 l1 -> [ M.NSet (bs "f", l0); M.NFor (None, bs "x", items,
+                        [ M.NFor (None, bs "y", M.EArr [ lit_int 1; lit_int 2 ], [ M.NIf ([ (var "f", [ text "T" ]) ], Some [ text "F" ]) ], None); M.NSet (bs "f", l1) ], None) ]);
+    "set-in-inner-loop", (fun l0 l1 -> [ M.NSet (bs "f", l0); M.NFor (None, bs "x", items,
+                        [ M.NIf ([ (var "f", [ text "T" ]) ], Some [ text "F" ]); M.NFor (None, bs "y", M.EArr [ lit_int 1 ], [ M.NSet (bs "f", l1) ], None) ], None) ]);
+    "two-flags", (fun l0 l1 -> [ M.NSet (bs "f", l0); M.NSet (bs "g", l1); M.NFor (None, bs "x", items,
+                        [ M.NIf ([ (var "f", [ text "T" ]); (var "g", [ text "G" ]) ], Some [ text "F" ]); M.NSet (bs "g", var "f"); M.NSet (bs "f", l1) ], None) ]);
+    "after-loop", (fun l0 l1 -> [ M.NSet (bs "f", l0); M.NFor (None, bs "x", items, [ M.NSet (bs "f", l1) ], None); M.NIf ([ (var "f", [ text "T" ]) ], Some [ text "F" ]) ]);
+    "before-and-after", (fun l0 l1 -> [ M.NSet (bs "f", l0); M.NIf ([ (var "f", [ text "T" ]) ], Some [ text "F" ]); M.NSet (bs "f", l1); M.NIf ([ (var "f", [ text "T" ]) ], Some [ text "F" ]) ]);
+    "in-if", (fun l0 l1 -> [ M.NSet (bs "f", l0); M.NIf ([ (var "go", [ M.NSet (bs "f", l1) ]) ], None); M.NIf ([ (var "f", [ text "T" ]) ], Some [ text "F" ]) ]);
+  ] in
+  List.iter (fun (_, mk) ->
+    List.iter (fun l0 -> List.iter (fun l1 ->
+      if l0 <> l1 then
+        List.iter (fun go -> emit_c09 oc ~stream:"c09-flag" (mk (lit l0) (lit l1)) [ ("go", M.VBool go) ]) [ true; false ])
+      lits) lits) shapes
+
+(* loops whose body holds nothing (or nothing that renders): the else branch still follows from the sequence alone *)
+let empty_loop_stream oc =
+  let bodies = [ []; [ text "" ]; [ M.NIf ([ (var "never", []) ], None) ]; [ M.NSet (bs "seen", lit_int 1) ] ] in
+  List.iter (fun (_, v) ->
+    List.iter (fun body ->
+      emit_c09 oc ~stream:"c09-empty-loop" [ text "<"; M.NFor (None, bs "i", var "s", body, Some [ text "none" ]); text ">"; print (var "seen") ] [ ("s", v) ];
+      emit_c09 oc ~stream:"c09-empty-loop" [ M.NFor (None, bs "o", M.EArr [ lit_int 1; lit_int 2 ],
+                                              [ text "["; M.NFor (Some (bs "k"), bs "i", var "s", body, Some [ text "none"; print (var "o") ]); text "]" ], Some [ text "outer-none" ]) ] [ ("s", v) ])
+      bodies) catalogue
+
 let range_stream oc ~wide =
   let lo = if wide then -7 else -4 and hi = if wide then 7 else 4 in
   for a = lo to hi do
@@ -576,5 +616,7 @@ let run ~seed ~tier oc =
     filtered_seq_stream oc;
     loopref_stream oc;
     empty_branch_stream oc;
+    flag_stream oc;
+    empty_loop_stream oc;
     range_stream oc ~wide:thorough;
     prog_stream r oc (if thorough then 60000 else 2500)
